@@ -8,7 +8,7 @@ props=${*:-$(seq -f 'C%02g' 1 20)}
 wt=$(mktemp -d /tmp/ptry.XXXXXX); out=$(mktemp -d /tmp/ptryout.XXXXXX)
 git -C /repo worktree add -q --detach $wt/repo HEAD || exit 2
 trap 'git -C /repo worktree remove --force $wt/repo >/dev/null 2>&1; rm -rf $wt $out' EXIT
-( cd $wt/repo && git apply "$patch" ) || { echo "$patch: PATCH DOES NOT APPLY"; exit 2; }
+( cd $wt/repo && { git apply "$patch" 2>/dev/null || git apply --3way "$patch" >/dev/null 2>&1; } ) || { echo "$patch: PATCH DOES NOT APPLY"; exit 2; }
 cp /verif/known_findings.txt $out/ 2>/dev/null
 fired=""; detail=""
 for p in $props; do
